@@ -575,6 +575,7 @@ func sortedKeys(m map[string]bool) []string {
 func (w *w3World) lifeTraces(when string, final bool) []w3Trace {
 	var out []w3Trace
 	add := func(clause, sig, f string, a ...any) {
+		sig += w.mixTraceSuffix(clause) // classification of mix scenario leftovers (signature only)
 		out = append(out, w3Trace{clause, sig, when + ": " + fmt.Sprintf(f, a...)})
 	}
 	hub := w.node.hub
